@@ -251,6 +251,13 @@ def enc(d, variant="plain"):
                                                 val.hexlist([bytes.fromhex(s) for s in d["strs"]])))
 
 
+def val_args(d):
+    infos = " ".join(norm_info(fi).rsplit(":", 1)[0] + ":" + (bytes.fromhex(fi["ck"]).ljust(32, b"\x00")[:32].hex())
+                     for fi in d["infos"])
+    return "%d %d %d %s%s" % (d["kind"], d["sig"], len(d["infos"]), infos + " " if infos else "",
+                             val.hexlist([bytes.fromhex(s) for s in d["strs"]]))
+
+
 def expected_dump(d):
     if d["t"] == "key":
         return "%d %s %s %s" % (d["kind"], d["name"] or "-", d["data"] or "-",
@@ -289,6 +296,17 @@ def run_case(case, ctx, verbose=False):
                 e2 = enc(x, variant)
                 if e2 != ex:
                     return Outcome("%s-constructed value encodes differently: %s vs %s" % (variant, e2, ex))
+            if y["t"] == "value":
+                # move-assigned over an object that already holds ANOTHER value (y): nothing of y may survive
+                e3 = val.ask("valover %s %s" % (val_args(y), val_args(x)))
+                if e3 != ex:
+                    return Outcome("a value move-assigned over an object holding another value encodes differently:\n  "
+                                   "held   = %s\n  assigned = %s\n  bytes  = %s\n  want   = %s" % (
+                                       expected_dump(y), want, e3, ex))
+                e4 = val.ask("valover %s %s" % (val_args(x), val_args(y)))
+                if e4 != enc(y):
+                    return Outcome("a value move-assigned over an object holding another value encodes differently:\n  "
+                                   "held   = %s\n  assigned = %s\n  bytes  = %s" % (want, expected_dump(y), e4))
             if int(ex[:2], 16) != x["kind"]:
                 return Outcome("first byte of the encoding %s is not the kind %d" % (ex[:2], x["kind"]))
         else:
